@@ -5,7 +5,7 @@
 (* delivery schedules (C07), stream faults (C08), frame sequences (C06),   *)
 (* ownership histories (C14), credential pairs (C18).                      *)
 (***************************************************************************)
-EXTENDS Gen
+EXTENDS Gen, MQLibText
 
 (***************************************************************************)
 (* corpus of short frames with every kind of verdict                       *)
@@ -134,9 +134,14 @@ FaultPlans(f, cut) ==
         cmp \in comps, ft \in {"eof", "err"}, w \in (IF cut = 0 THEN {FALSE} ELSE BOOLEAN)}
 
 FaultProg(x) ==
-  LET plans == SetToSeq(FaultPlans(x.f, x.cut)) IN
+  LET plans == SetToSeq(FaultPlans(x.f, x.cut))
+      \* the same cut with ReadPacket reading from a *bufio.Reader on top of the transport
+      buffered == {[chunks |-> <<>>, fate |-> ft, with |-> w, cut |-> x.cut] : ft \in {"eof", "err"}, w \in BOOLEAN}
+      bplans == SetToSeq(buffered) IN
   [fam |-> "fault", meta |-> [len |-> Len(x.f), cut |-> x.cut, n |-> Len(plans)],
-   steps |-> FlattenSteps([i \in 1..Len(plans) |-> ReadSteps(2, x.f, plans[i])])]
+   steps |-> FlattenSteps([i \in 1..Len(plans) |-> ReadSteps(2, x.f, plans[i])])
+             \o FlattenSteps([i \in 1..Len(bplans) |-> <<[op |-> "Stream", stream |-> 1, bytes |-> x.f \o <<208, 0>>, reader |-> bplans[i], key |-> "bufio"],
+                                                           [op |-> "ReadPacket", h |-> 3, stream |-> 1], [op |-> "ReadPacket", h |-> 4, stream |-> 1]>>])]
 
 (* family "seq": sequences of frames followed by trailing bytes, read by successive calls *)
 (* the same bodies under type nibbles whose layout is empty or optional: a decoder must still take the announced bytes *)
@@ -152,6 +157,12 @@ SeqCases ==
   \cup {[kind |-> "seq", fs |-> <<b, a>>, tr |-> <<>>, with |-> TRUE] :
          a \in {<<192, 0>>, <<208, 0>>, <<224, 0>>, <<240, 0>>, <<64, 2, 0, 1>>}, b \in SeqFrames}
 
+SeqHugeCases == IF Thorough THEN {[kind |-> "seqhuge", n |-> 1048580]} ELSE {}
+SeqHugeProg(x) ==
+  [fam |-> "seq", meta |-> [kind |-> x.kind],
+   steps |-> <<[op |-> "Stream", stream |-> 1, bytes |-> BigFrame(x.n) \o <<64, 2, 0, 7>> \o <<192, 0>>, observe |-> "all"],
+               [op |-> "ReadPacket", h |-> 1, stream |-> 1], [op |-> "ReadPacket", h |-> 2, stream |-> 1],
+               [op |-> "ReadPacket", h |-> 3, stream |-> 1], [op |-> "ReadPacket", h |-> 4, stream |-> 1]>>]
 SeqProg(x) ==
   LET bytes == Concat(x.fs) \o x.tr
       nreads == Len(x.fs) + 2 IN
@@ -227,6 +238,14 @@ WfSubProg(x) ==
                  ELSE <<>>)]
 
 WfFilterCases == {[kind |-> "wffilter", opt |-> opt, empty |-> em] : opt \in 0..255, em \in BOOLEAN}
+                 \cup {[kind |-> "wfspecial", sx |-> sx, opt |-> opt, pos |-> pos] : sx \in SpecialTexts, opt \in {0, 1, 3, 4, 5, 7, 12, 44, 60, 68}, pos \in 1..2}
+WfSpecialProg(x) ==      \* a filter MQTT gives a meaning to, alone and as the second filter of a SUBSCRIBE, built and decoded
+  [fam |-> "wf", meta |-> [kind |-> x.kind],
+   steps |-> <<[op |-> "Filter", args |-> <<x.sx, x.opt>>],
+               [op |-> "New", h |-> 1, type |-> "Subscribe"], CallOp(1, "SetPacketID", <<3>>),
+               CallOp(1, "AddFilters", IF x.pos = 1 THEN << <<x.sx, x.opt>> >> ELSE << <<Txt(2), 1>>, <<x.sx, x.opt>> >>),
+               [op |-> "Diag", h |-> 1], [op |-> "WriteTo", h |-> 1], [op |-> "Stream", stream |-> 1, from |-> 1],
+               [op |-> "ReadPacket", h |-> 2, stream |-> 1], [op |-> "Diag", h |-> 2]>>]
 WfFilterProg(x) == [fam |-> "wf", meta |-> [kind |-> x.kind],
                     steps |-> <<[op |-> "Filter", args |-> <<IF x.empty THEN <<>> ELSE Txt(3), x.opt>>]>>]
 
@@ -246,10 +265,18 @@ RenderCases ==
   \cup {[kind |-> "cflags", b |-> b] : b \in 0..255}
   \cup {[kind |-> "aflags", b |-> b] : b \in 0..255}
   \cup {[kind |-> "zero", t |-> t] : t \in 0..15}
+  \cup {[kind |-> "rname", t |-> t, b |-> b, sep |-> sep] : t \in {2, 4, 5, 6, 7, 14}, b \in KnownReasons \cup {3, 200}, sep \in 0..2}
 RenderProg(x) ==
   IF x.kind = "rcode" THEN
      [fam |-> "diag", meta |-> [kind |-> x.kind], steps |-> <<[op |-> "New", h |-> 1, type |-> TypeName(x.t)],
         CallOp(1, "SetReasonCode", <<x.b>>), [op |-> "Diag", h |-> 1]>>]
+  ELSE IF x.kind = "rname" THEN       \* the reason string is the name of the reason code (a server that logs code.String())
+     LET name == IF x.b \in KnownReasons THEN ReasonText(x.b) ELSE TxtReasonCodeOpen \o <<50, 48, 48, 41>> IN
+     [fam |-> "diag", meta |-> [kind |-> x.kind], steps |-> <<[op |-> "New", h |-> 1, type |-> TypeName(x.t)],
+        CallOp(1, "SetReasonCode", <<x.b>>),
+        CallOp(1, "SetReasonString", <<IF x.sep = 0 THEN name ELSE IF x.sep = 1 THEN name \o <<58>> ELSE name \o <<58, 32>> \o Txt(3)>>),
+        [op |-> "Diag", h |-> 1], [op |-> "WriteTo", h |-> 1], [op |-> "Stream", stream |-> 1, from |-> 1],
+        [op |-> "ReadPacket", h |-> 2, stream |-> 1], [op |-> "Diag", h |-> 2]>>]
   ELSE IF x.kind = "rcodes" THEN
      [fam |-> "diag", meta |-> [kind |-> x.kind], steps |-> <<[op |-> "New", h |-> 1, type |-> TypeName(x.t)],
         CallOp(1, "AddReasonCode", <<x.b>>), [op |-> "Diag", h |-> 1]>>]
@@ -314,7 +341,7 @@ CredShapes == {p \in ConnectPkts({TRUE}, {NoWill, [w |-> TRUE, wq |-> 1, wr |-> 
                                  FewPropSeqs(1), FewPropSeqs(WILLCTX), {Txt(3), <<>>}, {Bin(3), <<>>}) : TRUE}
 CredCases ==
   {[kind |-> "cred", p |-> p, n |-> n, variant |-> vr, decoded |-> dc, reuse |-> FALSE] :
-     p \in CredShapes, n \in CredLens, vr \in 1..4, dc \in BOOLEAN}
+     p \in CredShapes, n \in CredLens, vr \in 1..6, dc \in BOOLEAN}
   \* the two CONNECT values are reused: a frame without credentials is decoded INTO each of them
   \cup {[kind |-> "cred", p |-> p, n |-> n, variant |-> vr, decoded |-> FALSE, reuse |-> TRUE] :
          p \in CredShapes, n \in {1, 9}, vr \in {1, 3}}
@@ -325,7 +352,10 @@ SecretA(x) == IF x.variant = 1 THEN Fill(x.n, 65)
               ELSE [i \in 1..x.n |-> Txt(4)[((i - 1) % 4) + 1]]                                 \* repeats the will topic
 SecretB(x) == [i \in 1..x.n |-> IF i = x.n THEN 90 ELSE SecretA(x)[i] + (IF i % 2 = 0 THEN 1 ELSE 0)]
 CredOps(x, h, hw, su, sp) ==
-  LET q == [x.p EXCEPT !.v["Username"] = su] IN
+  \* variant 5: a user property value equals the first secret; variant 6: the client identifier does (in BOTH packets)
+  LET q0 == IF x.variant = 5 THEN [x.p EXCEPT !.v["Props"] = Append(@, PV(38, <<Txt(2), SecretA(x)>>))]
+            ELSE IF x.variant = 6 THEN [x.p EXCEPT !.v["ClientID"] = SecretA(x)] ELSE x.p
+      q == [q0 EXCEPT !.v["Username"] = su] IN
   LET q2 == IF "Password" \in DOMAIN q.v THEN [q EXCEPT !.v["Password"] = sp] ELSE q
       ops == BuildOps(q2) IN
   [i \in 1..Len(ops) |->
@@ -469,7 +499,29 @@ ConcCases ==
 ConcFrameSets == { << <<0, 3, 97, 97, 97>>, <<0, 5, 99, 99, 99, 99, 99>>, <<0, 2, 7, 7>> >>,
                    << <<32, 6, 1, 0, 3, 33, 0, 20>>, <<32, 3, 0, 0, 0>>, <<0, 1, 9>> >>,
                    << <<48, 5, 0, 1, 97, 0, 122>>, <<50, 6, 0, 1, 97, 0, 7, 0>>, <<64, 2, 0, 1>>, <<224, 0>> >> }
-ConcFrameCases == IF 1 \in TYPES THEN {[kind |-> "concframes", fs |-> fs] : fs \in ConcFrameSets} ELSE {}
+ConcFrameCases == IF 1 \in TYPES THEN {[kind |-> "concframes", fs |-> fs] : fs \in ConcFrameSets}
+                                        \cup {[kind |-> "concpool", j |-> j] : j \in 1..3} \cup {[kind |-> "concmalformed", j |-> j] : j \in 1..3}
+                  ELSE {}
+(* a PUBLISH decoded earlier stays in use (written, inspected) while other goroutines decode frames that carry a *)
+(* subscription identifier where MQTT allows none                                                               *)
+ConcPoolProg(x) ==
+  [fam |-> "conc", meta |-> [kind |-> x.kind],
+   steps |-> <<[op |-> "Stream", stream |-> 1, bytes |-> <<50, 8, 0, 1, 97, 0, 7, 2, 11, 5>>],
+               [op |-> "ReadPacket", h |-> 1, stream |-> 1],
+               [op |-> "Conc", hs |-> <<1>>, ops |-> IF x.j = 1 THEN <<"ReadFrame", "WriteTo", "Accessors", "ReadFrame">>
+                                                   ELSE IF x.j = 2 THEN <<"WriteTo", "ReadFrame", "String", "ReadFrame">>
+                                                   ELSE <<"ReadFrame", "Dump", "ReadFrame", "WriteTo">>,
+                frames |-> << <<224, 4, 0, 2, 11, 7>>, <<64, 6, 0, 7, 0, 2, 11, 99>>, <<32, 5, 0, 0, 2, 11, 5>> >>,
+                procs |-> 4, n |-> IF Thorough THEN 3000 ELSE 400]>>]
+(* the error path under concurrency: malformed packets asked for WellFormed / String, truncated frames read, all at once *)
+ConcMalformedProg(x) ==
+  [fam |-> "conc", meta |-> [kind |-> x.kind],
+   steps |-> <<[op |-> "New", h |-> 1, type |-> "Publish"], CallOp(1, "SetQoS", <<IF x.j = 1 THEN 1 ELSE 3>>),
+               [op |-> "New", h |-> 2, type |-> "Subscribe"],
+               [op |-> "Conc", hs |-> <<1, 2>>, ops |-> IF x.j = 3 THEN <<"ReadFrame", "ReadFrame", "WellFormed", "String">>
+                                                      ELSE <<"WellFormed", "String", "ReadFrame", "ReadFrame">>,
+                frames |-> << <<64, 1, 0>>, <<32, 6, 0, 0, 3, 17, 0, 0>>, <<130, 7, 0, 1, 0, 0, 5, 97, 1>>, <<48, 1, 0>> >>,
+                procs |-> 4, n |-> IF Thorough THEN 2000 ELSE 300]>>]
 ConcFramesProg(x) ==
   [fam |-> "conc", meta |-> [kind |-> x.kind],
    steps |-> <<[op |-> "New", h |-> 1, type |-> "PingReq"],
@@ -501,7 +553,7 @@ ConcProg(x) ==
 (* again after being completed (C12, C14, C02)                             *)
 (***************************************************************************)
 RefCall(h, m, hs) == [op |-> "Call", h |-> h, m |-> m, args |-> [i \in 1..Len(hs) |-> [h |-> hs[i]]], refs |-> TRUE]
-ReuseCases == {[kind |-> "reuse", n |-> n, k |-> k] : n \in 1..5, k \in 1..4}
+ReuseCases == {[kind |-> "reuse", n |-> n, k |-> k] : n \in 1..7, k \in 1..4}
 Names == <<Txt(9), Txt(9), Txt(4), Txt(12), Txt(2)>>
 Name(j, k) == [i \in 1..Len(Names[((j + k) % 5) + 1]) |-> Names[((j + k) % 5) + 1][i] + (IF i = Len(Names[((j + k) % 5) + 1]) THEN j ELSE 0)]
 ReuseProg(x) ==
@@ -539,6 +591,26 @@ ReuseProg(x) ==
           [op |-> "WriteTo", h |-> 1], [op |-> "Stream", stream |-> 1, from |-> 1], [op |-> "ReadPacket", h |-> 9, stream |-> 1],
           [op |-> "Pub", h |-> 3, args |-> <<(x.k + 2) % 3, Txt(2), <<>>>>], CallOp(1, "SetWill", <<[h |-> 3]>>),
           [op |-> "WriteTo", h |-> 1], [op |-> "Stream", stream |-> 1, from |-> 1], [op |-> "ReadPacket", h |-> 8, stream |-> 1]>>
+     ELSE IF x.n = 6 THEN  \* setters called on the elements of the list Filters() returns, with String / WellFormed / WriteTo before and after
+        <<[op |-> "New", h |-> 1, type |-> "Subscribe", observe |-> "all"], CallOp(1, "SetPacketID", <<7>>),
+          CallOp(1, "AddFilters", [j \in 1..(x.k + 1) |-> <<Name(j, x.k), j % 3>>]),
+          [op |-> "Diag", h |-> 1], [op |-> "WriteTo", h |-> 1],
+          [op |-> "CallElem", h |-> 1, key |-> "Filters", n |-> 0, m |-> "SetFilter", args |-> <<Name(0, x.k) \o Txt(x.k + 3)>>],
+          [op |-> "Diag", h |-> 1], [op |-> "WriteTo", h |-> 1],
+          [op |-> "CallElem", h |-> 1, key |-> "Filters", n |-> x.k, m |-> "SetOptions", args |-> <<3>>],
+          [op |-> "Diag", h |-> 1],
+          [op |-> "CallElem", h |-> 1, key |-> "Filters", n |-> x.k, m |-> "SetOptions", args |-> <<1>>],
+          [op |-> "CallElem", h |-> 1, key |-> "Filters", n |-> x.k % 2, m |-> "SetFilter", args |-> <<<<>>>>],
+          [op |-> "Diag", h |-> 1],
+          [op |-> "CallElem", h |-> 1, key |-> "Filters", n |-> x.k % 2, m |-> "SetFilter", args |-> <<Txt(2)>>],
+          [op |-> "Diag", h |-> 1], [op |-> "WriteTo", h |-> 1], [op |-> "Stream", stream |-> 1, from |-> 1],
+          [op |-> "ReadPacket", h |-> 9, stream |-> 1],
+          [op |-> "CallElem", h |-> 9, key |-> "Filters", n |-> 0, m |-> "SetOptions", args |-> <<7>>], [op |-> "Diag", h |-> 9],
+          [op |-> "WriteTo", h |-> 9]>>
+     ELSE IF x.n = 7 THEN  \* a will completed after SetWill: String before the first write, then the write
+        <<[op |-> "New", h |-> 1, type |-> "Connect", observe |-> "all"], [op |-> "Pub", h |-> 2, args |-> <<x.k % 3, Txt(3), Bin(6)>>],
+          CallOp(1, "SetWill", <<[h |-> 2]>>), CallOp(2, "SetPayload", <<Bin(10 * x.k)>>),
+          [op |-> "WriteTo", h |-> 1], [op |-> "Diag", h |-> 1], [op |-> "WriteTo", h |-> 1]>>
      ELSE                  \* byte slices handed to setters of two packets built next to each other
         <<[op |-> "New", h |-> 1, type |-> "Publish", observe |-> "all"], [op |-> "New", h |-> 2, type |-> "Publish"],
           CallOp(1, "SetTopicName", <<Name(1, x.k)>>), CallOp(2, "SetTopicName", <<Name(2, x.k)>>),
@@ -567,7 +639,7 @@ ManyProg(x) == ReadProg("many", Encode(ManyPkt(x)), [kind |-> x.kind, n |-> x.n,
 Cases2 ==
   IF FAMILY = "sched" THEN SchedCases \cup SchedBigCases
   ELSE IF FAMILY = "fault" THEN FaultCases \cup FaultBigCases
-  ELSE IF FAMILY = "seq" THEN SeqCases
+  ELSE IF FAMILY = "seq" THEN SeqCases \cup SeqHugeCases
   ELSE IF FAMILY = "first" THEN {x \in FirstCases : FirstValid(x)}
   ELSE IF FAMILY = "wf" THEN WfPublishCases \cup WfSubscribeCases \cup WfFilterCases \cup WfWireCases
   ELSE IF FAMILY = "render" THEN RenderCases
@@ -589,12 +661,14 @@ ProgOf2(x) ==
   ELSE IF x.kind = "faultbig" THEN FaultBigProg(x)
   ELSE IF x.kind = "fault" THEN FaultProg(x)
   ELSE IF x.kind = "seq" THEN SeqProg(x)
+  ELSE IF x.kind = "seqhuge" THEN SeqHugeProg(x)
   ELSE IF x.kind = "first" THEN FirstProg(x)
   ELSE IF x.kind = "wfpub" THEN WfPubProg(x)
   ELSE IF x.kind = "wfsub" THEN WfSubProg(x)
   ELSE IF x.kind = "wffilter" THEN WfFilterProg(x)
+  ELSE IF x.kind = "wfspecial" THEN WfSpecialProg(x)
   ELSE IF x.kind = "wfwire" THEN WfWireProg(x)
-  ELSE IF x.kind \in {"rcode", "rcodes", "cflags", "aflags", "zero"} THEN RenderProg(x)
+  ELSE IF x.kind \in {"rcode", "rcodes", "cflags", "aflags", "zero", "rname"} THEN RenderProg(x)
   ELSE IF x.kind = "wfault" THEN WFaultProg(x)
   ELSE IF x.kind \in {"wfaultbig", "wfaultbigc"} THEN WFaultBigProg(x)
   ELSE IF x.kind = "odd" THEN OddProg(x)
@@ -606,6 +680,8 @@ ProgOf2(x) ==
   ELSE IF x.kind = "many" THEN ManyProg(x)
   ELSE IF x.kind = "conc" THEN ConcProg(x)
   ELSE IF x.kind = "concframes" THEN ConcFramesProg(x)
+  ELSE IF x.kind = "concpool" THEN ConcPoolProg(x)
+  ELSE IF x.kind = "concmalformed" THEN ConcMalformedProg(x)
   ELSE ProgOf(x)
 
 Theorems2 ==
